@@ -1052,15 +1052,23 @@ public:
   {
     auto max_ptr = (typename T_Sbx::T_PointerType)(get_total_memory() - 1);
     auto idx = app_ptr_map.get_app_pointer_idx((void*)ptr, max_ptr);
-    auto idx_as_ptr = this->template impl_get_unsandboxed_pointer<T>(idx);
+    // The token stands for a pointer of type T*: translate it as such (not as
+    // the pointee type T, which backends that tell function pointers from data
+    // pointers by this type would treat as a function pointer when the
+    // application object happens to be one)
+    auto idx_as_ptr = this->template impl_get_unsandboxed_pointer<T*>(idx);
     // Right now we simply assume that any integer can be converted to a valid
     // pointer in the sandbox This may not be true for some sandboxing mechanism
     // plugins in the future In this case, we will have to come up with
     // something more clever to construct indexes that look like valid pointers
     // Add a check for now to make sure things work fine
-    detail::dynamic_check(is_pointer_in_sandbox_memory(idx_as_ptr),
-                          "App pointers are not currently supported for this "
-                          "rlbox sandbox plugin. Please file a bug.");
+    if (!is_pointer_in_sandbox_memory(idx_as_ptr)) {
+      // no owner is created for this token: release it again
+      app_ptr_map.remove_app_ptr(idx);
+      detail::dynamic_check(false,
+                            "App pointers are not currently supported for this "
+                            "rlbox sandbox plugin. Please file a bug.");
+    }
     auto ret = app_pointer<T*, T_Sbx>(
       &app_ptr_map, idx, reinterpret_cast<T*>(idx_as_ptr));
     return ret;
